@@ -16,6 +16,7 @@ import (
 	"github.com/cloudflare/circl/group"
 	"github.com/cloudflare/circl/internal/verifc16"
 	"github.com/cloudflare/circl/internal/verifmc"
+	"github.com/cloudflare/circl/internal/verifref/c16ref"
 	"github.com/cloudflare/circl/oprf"
 	"github.com/cloudflare/circl/zk/dleq"
 )
@@ -106,7 +107,7 @@ func TestVerifC16_oprf_tamper(t *testing.T) {
 	defer r.Finish()
 	r.Rule("base case = honest run (suite, mode, key, info, batch, blind vector); alterations, one at a time: evaluated[i] <- {another evaluation, identity, generator, blinded[i], -evaluated[i], evaluated[i]+G}, " +
 		"two evaluations swapped, every enumerated single-bit flip of each serialised evaluated element, of proof c||s, of the public key and of info, proof scalars c/s <- {+-1, 0, swapped, other batch's}, " +
-		"proof of another request, evaluation of another request / another mode, public key <- {other key, generator, -pk}, info <- {appended, truncated, empty, other}, blinded[i] changed after evaluation, " +
+		"proof of another request, evaluation of another request / another mode, cheating server (evaluated[i] <- {identity, generator, unrelated} with a proof made with the server's key for the altered lists, for the lists with position i replaced by (I,I), and for the remaining positions), public key <- {other key, generator, -pk}, info <- {appended, truncated, empty, other}, blinded[i] changed after evaluation, " +
 		"evaluation count changed; in VOPRF/POPRF Finalize must return an error (or decoding already fails); OPRF: no panic; non-trivial = distinct (base case, alteration) whose input differs from the honest one")
 	suites := c16Suites()
 	type job struct {
@@ -291,6 +292,69 @@ func TestVerifC16_oprf_tamper(t *testing.T) {
 			}
 		}
 		if j.mode != 0 {
+			// ---- cheating server: one evaluated element replaced, proof made with the server's key for a neighbouring statement ----
+			// VOPRF proves (k; G, pk; blinded_j -> evaluated_j), POPRF proves (t = k + H(info); G, t*G; evaluated_j -> blinded_j).
+			params := dleq.Params{G: g, H: s.Hash, DST: c16ref.ContextString(j.mode, s.SuiteID)}
+			key := p.k
+			if j.mode == 2 {
+				key = g.NewScalar().Add(p.k, g.HashToScalar(c16ref.InfoFrame(info), c16ref.DST("HashToScalar-", j.mode, s.SuiteID)))
+			}
+			cheat := func(bl, evs []group.Element) *dleq.Proof {
+				var pr *dleq.Proof
+				var err error
+				if pan, _ := verifmc.Try(func() {
+					rnd := g.HashToScalar([]byte("cheating server randomness"), []byte("verif-c16"))
+					if j.mode == 1 {
+						pr, err = dleq.Prover{Params: params}.ProveBatchWithRandomness(key, g.Generator(), g.NewElement().MulGen(key), bl, evs, rnd)
+					} else {
+						pr, err = dleq.Prover{Params: params}.ProveBatchWithRandomness(key, g.Generator(), g.NewElement().MulGen(key), evs, bl, rnd)
+					}
+				}); pan || err != nil {
+					return nil
+				}
+				return pr
+			}
+			copyReq := func() []group.Element {
+				out := make([]group.Element, n)
+				for i := range out {
+					out[i] = req.Elements[i].Copy()
+				}
+				return out
+			}
+			// sanity: the rebuilt prover reproduces an acceptable honest proof (else the class would be vacuous)
+			if pr := cheat(copyReq(), c.copyEls()); pr == nil {
+				t.Errorf("harness: cannot rebuild the server's prover")
+			} else if _, err, pan, _ := p.finalize(fd, &oprf.Evaluation{Elements: c.copyEls(), Proof: pr}, info); err != nil || pan {
+				t.Errorf("harness: rebuilt server proof is not accepted on the honest evaluation: %v", err)
+			} else {
+				r.Count("cheating_server_prover_bound", 1)
+			}
+			for i := 0; i < n; i++ {
+				for _, x := range []struct {
+					name string
+					e    group.Element
+				}{{"identity", g.Identity()}, {"generator", g.Generator()}, {"unrelated", g.HashToElement([]byte("unrelated"), []byte("verif-c16"))}} {
+					els := c.copyEls()
+					els[i] = x.e
+					// proof sources: the false statement itself; position i replaced by (identity, identity) on both lists
+					// (what a verifier that skips the position would check); the sub-batch without position i
+					blI, evI := copyReq(), c.copyEls()
+					blI[i], evI[i] = g.Identity(), g.Identity()
+					blR, evR := append(copyReq()[:i:i], copyReq()[i+1:]...), append(c.copyEls()[:i:i], c.copyEls()[i+1:]...)
+					for _, src := range []struct {
+						name    string
+						bl, evs []group.Element
+					}{{"proof-for-the-altered-lists", copyReq(), els}, {"proof-with-position-replaced-by-(I,I)", blI, evI}, {"proof-for-the-remaining-positions", blR, evR}} {
+						pr := cheat(src.bl, src.evs)
+						if pr == nil {
+							c.r.Outcome(c16ModeName[j.mode] + ":cheating-prover-refuses")
+							continue
+						}
+						r.Count("cheating_server_cases", 1)
+						c.try("cheating-server", fmt.Sprintf("evaluated[%d]=%s+%s", i, x.name, src.name), p, &oprf.Evaluation{Elements: els, Proof: pr}, info)
+					}
+				}
+			}
 			// ---- proof ----
 			praw, err := ev.Proof.MarshalBinary()
 			if err != nil {
@@ -437,4 +501,6 @@ func TestVerifC16_oprf_tamper(t *testing.T) {
 	r.RequireCounter("bitflips_pk", 300)
 	r.RequireCounter("bitflips_info", 500)
 	r.RequireCounter("base_mode_no_panic", 20)
+	r.RequireCounter("cheating_server_cases", 300)
+	r.RequireCounter("cheating_server_prover_bound", 20)
 }
